@@ -2687,7 +2687,11 @@ class RelevantPatientInformationQueryServiceClass(ServiceClass):
             # Send pending response
             self.dimse.send_msg(rsp, cx_id)
 
-            # Send final success response
+            # Send final success response - make sure the identifier and any
+            #   status elements sent with the match aren't present
+            rsp.Identifier = None
+            rsp.ErrorComment = None
+            rsp.OffendingElement = None
             rsp.Status = 0x0000
             LOGGER.info("Find SCP Response: 0x0000 (Success)")
             self.dimse.send_msg(rsp, cx_id)
